@@ -158,7 +158,15 @@ def unfold_axioms(terms, extra_fuel=0):
                 raise RuntimeError(f"spec function {sf.name}: path without return")
             from .core import lift
 
-            ax = z3.Implies(z3.And(*s2.pc) if s2.pc else z3.BoolVal(True), app == lift(o.value, sf.ret))
+            # facts the engine assumed while executing the body because they hold of every real value (dict
+            # well-formedness with its Skolem functions, ..) are asserted on their own; only the branch conditions guard
+            # the defining equation
+            thm = s2.ghost.get("__theorems__", frozenset())
+            guards = [f for f in s2.pc if f.get_id() not in thm]
+            for f in s2.pc:
+                if f.get_id() in thm:
+                    axioms.append(f)
+            ax = z3.Implies(z3.And(*guards) if guards else z3.BoolVal(True), app == lift(o.value, sf.ret))
             axioms.append(ax)
             new_terms.append(ax)
         for a2 in _spec_apps(new_terms):
@@ -294,11 +302,15 @@ def confirm(path: str, prover: str, timeout: float):
         except OSError:
             continue
     unsat, attempts, dis = [], [], None
-    deadline = time.time() + timeout + 5
+    start = time.time()
+    deadline = start + timeout + 5
     pending = dict(procs)
     while pending:
+        # one independent `unsat` is a confirmation: stop waiting for the others (after a short grace period in which a
+        # quick `sat` — the wrong answers seen so far were contradicted within 0.1 s — would still be caught)
+        enough = bool(unsat) and time.time() - start > 0.5
         for name, (p, t0) in list(pending.items()):
-            if p.poll() is None and time.time() < deadline and dis is None:
+            if p.poll() is None and time.time() < deadline and dis is None and not enough:
                 continue
             if p.poll() is None:
                 p.kill()
@@ -306,8 +318,8 @@ def confirm(path: str, prover: str, timeout: float):
             else:
                 out = p.stdout.read() if p.stdout else ""
             del pending[name]
-            first = out.strip().split("\n", 1)[0].strip() if out.strip() else "timeout"
-            if first not in ("sat", "unsat", "unknown"):
+            first = out.strip().split("\n", 1)[0].strip() if out.strip() else ("stopped" if enough else "timeout")
+            if first not in ("sat", "unsat", "unknown", "stopped"):
                 first = "timeout" if "timeout" in out or not out.strip() else "error"
             attempts.append({"solver": name, "status": first, "time_s": round(time.time() - t0, 3), "limit_s": timeout})
             if first == "unsat":
